@@ -746,4 +746,68 @@ theorem magang_name_keys_injective (n a n' a' : Int) (h : Valid n a) (h' : Valid
 example : Valid 6 4 ∧ Generated.C11.nameKey 6 4 = some (4, 2, 4, 2) := by
   refine ⟨by decide, ?_⟩; rw [gen_nameKey _ _ (by decide)]; rfl
 
+
+/-- the groups of `zernikes_to_magnitude_angle_nmkey` (specification `groupByKey`, which the real dict is compared with on every generated
+    list) partition the coefficient list: keys pairwise different, every group non-empty with ascending positions, a position is in a
+    group exactly when its term has the group's `(n, |m|)`, and every position is in some group — no coefficient is dropped or counted twice -/
+theorem magang_grouping_partition (l : List (Int × Int)) :
+    ((groupByKey l).map Prod.fst).Nodup ∧
+    (∀ g ∈ groupByKey l, g.2 ≠ [] ∧ g.2.Pairwise (· < ·) ∧
+      ∀ i, i ∈ g.2 ↔ ∃ h : i < l.length, Generated.C11.magangKey (l[i]).1 (l[i]).2 = g.1) ∧
+    (∀ i (h : i < l.length), ∃ g ∈ groupByKey l, g.1 = Generated.C11.magangKey (l[i]).1 (l[i]).2) := by
+  simp only [gen_magangKey]
+  refine ⟨?_, ?_, ?_⟩
+  · unfold groupByKey
+    rw [List.map_map]
+    have : (Prod.fst ∘ fun k => (k, positionsOf l k)) = id := by funext k; rfl
+    rw [this, List.map_id]
+    exact firstKeys_nodup l
+  · intro g hg
+    unfold groupByKey at hg
+    obtain ⟨k, hk, rfl⟩ := List.mem_map.mp hg
+    refine ⟨?_, positionsOf_sorted l k, fun i => mem_positionsOf l k i⟩
+    obtain ⟨p, hp, e⟩ := (mem_firstKeys l k).mp hk
+    obtain ⟨i, hi, rfl⟩ := List.getElem_of_mem hp
+    intro hnil
+    have : i ∈ positionsOf l k := (mem_positionsOf l k i).mpr ⟨hi, e⟩
+    simp only [] at hnil
+    rw [hnil] at this
+    exact absurd this (List.not_mem_nil)
+  · intro i h
+    refine ⟨(magangKey (l[i]).1 (l[i]).2, positionsOf l (magangKey (l[i]).1 (l[i]).2)), ?_, rfl⟩
+    unfold groupByKey
+    exact List.mem_map.mpr ⟨_, (mem_firstKeys l _).mpr ⟨l[i], List.getElem_mem h, rfl⟩, rfl⟩
+
+/-- in a coefficient list that names each order at most once, every group of the specification has one or two members: the
+    `len(value) == 1` branch or `arctan2(first, second)`, never a TypeError -/
+theorem magang_groups_le_two (l : List (Int × Int)) (hl : l.Nodup) : ∀ g ∈ groupByKey l, g.2.length ≤ 2 := by
+  intro g hg
+  unfold groupByKey at hg
+  obtain ⟨k, _, rfl⟩ := List.mem_map.mp hg
+  simp only []
+  have hnd : (positionsOf l k).Nodup := (positionsOf_sorted l k).imp (fun h => Nat.ne_of_lt h)
+  have hnd2 : ((positionsOf l k).map (fun i => l.getD i (0, 0))).Nodup := by
+    apply List.Nodup.map_on _ hnd
+    intro i hi j hj e
+    obtain ⟨h1, _⟩ := (mem_positionsOf l k i).mp hi
+    obtain ⟨h2, _⟩ := (mem_positionsOf l k j).mp hj
+    simp only [List.getD_eq_getElem?_getD, List.getElem?_eq_getElem h1, List.getElem?_eq_getElem h2, Option.getD_some] at e
+    exact (List.Nodup.getElem_inj_iff hl).mp e
+  have hsub : ((positionsOf l k).map (fun i => l.getD i (0, 0))) ⊆ [(k.1, k.2), (k.1, -k.2)] := by
+    intro p hp
+    obtain ⟨i, hi, rfl⟩ := List.mem_map.mp hp
+    obtain ⟨h1, e⟩ := (mem_positionsOf l k i).mp hi
+    simp only [List.getD_eq_getElem?_getD, List.getElem?_eq_getElem h1, Option.getD_some]
+    unfold Model.C11.magangKey iabs at e
+    have a : (l[i]).1 = k.1 := by rw [← e]
+    have b : (l[i]).2 = k.2 ∨ (l[i]).2 = -k.2 := by
+      rw [← e]; simp only []; split_ifs <;> omega
+    rcases b with b | b
+    · exact List.mem_cons.mpr (Or.inl (Prod.ext a b))
+    · exact List.mem_cons.mpr (Or.inr (List.mem_singleton.mpr (Prod.ext a b)))
+  have := (List.Nodup.subperm hnd2 hsub).length_le
+  simpa using this
+
+example : groupByKey [(2, 2), (3, 1), (2, -2), (0, 0)] = [((2, 2), [0, 2]), ((3, 1), [1]), ((0, 0), [3])] := by decide
+
 end C11
